@@ -26,9 +26,9 @@ def count(tier, seed):
 
 def run_case(case):
     R = ref.Recs()
-    spec = case["spec"]
+    spec = case.get("spec")
     try:
-        P, result, view = simcase.simulate(spec, R)
+        P, result, view = simcase.simulate_case(case, R)
     except simcase.Excluded as e:
         return {"records": R.records(), "stats": R.stats, "nontrivial": False, "excluded": e.reason}
     ref.check_nonneg_finite(view, R)
@@ -41,5 +41,5 @@ def run_case(case):
     nontrivial = st.get("rescaled_steps", 0) > 0 or st.get("rescaled_steps_timed", 0) > 0 or st.get("negative_parameter_steps", 0) > 0
     for f in simprop.features(view):
         R.count("feature[%s]" % f)
-    R.count("vclass[%s]" % spec["meta"]["vclass"])
-    return {"records": R.records(), "stats": R.stats, "nontrivial": bool(nontrivial), "sample": simprop.sample_of(spec)}
+    R.count("vclass[%s]" % (spec["meta"]["vclass"] if spec else "corpus:" + case["mode"]))
+    return {"records": R.records(), "stats": R.stats, "nontrivial": bool(nontrivial), "sample": simprop.sample_of_case(case)}
